@@ -1306,7 +1306,11 @@ func (g *Gen) returnClauses(fr *Frame, st *State, x *ssa.Return, vs []Val, r str
 				bs = append(bs, k)
 			}
 		}
-		fmt.Fprintf(os.Stderr, "  return#%d at %v binds=%v\n", k, g.posOf(x), bs)
+		var ss []string
+		for o := range st.src {
+			ss = append(ss, fmt.Sprintf("%s@%v(addr=%v)", o.Name(), g.prog.Fset.Position(o.Pos()).Line, st.srcAddr[o]))
+		}
+		fmt.Fprintf(os.Stderr, "  return#%d at %v binds=%v src=%v\n", k, g.posOf(x), bs, ss)
 	}
 	for _, cl := range fr.fc.Returns {
 		v, err := g.evalBool(cl.Expr, env)
